@@ -296,6 +296,15 @@ func (idx *IVFPQIndex) Add(vector VectorNode) error {
 		return err
 	}
 
+	// Re-adding an id that is still soft-deleted: purge the tombstoned entry
+	// first. Otherwise the new content would stay hidden behind the old
+	// tombstone and be dropped, together with the old one, by the next Flush.
+	if idx.deletedNodes.Contains(vector.ID()) {
+		if err := idx.flushLocked(); err != nil {
+			return err
+		}
+	}
+
 	// Find nearest IVF centroid
 	listIdx := FindNearestCentroidIndex(vector.Vector(), idx.centroids, idx.distance)
 
@@ -401,6 +410,13 @@ func (idx *IVFPQIndex) Remove(vector VectorNode) error {
 func (idx *IVFPQIndex) Flush() error {
 	idx.mu.Lock()
 	defer idx.mu.Unlock()
+
+	return idx.flushLocked()
+}
+
+// flushLocked physically removes all soft-deleted entries.
+// The caller must hold idx.mu for writing.
+func (idx *IVFPQIndex) flushLocked() error {
 
 	// Quick exit if nothing to flush
 	deletedCount := int(idx.deletedNodes.GetCardinality())
